@@ -337,7 +337,7 @@ def gen_auth(r):
     return ('hash', gen_role(r), r.randrange(1 << 16), r.choice([0, 100, 50, 50, 50, 30, 70, 90, 10]))
 
 
-def gen_session(r, link, nframes=None, auth=None, big_ok=True, raw=0.15, units_k=None):
+def gen_session(r, link, nframes=None, auth=None, big_ok=True, raw=0.15, units_k=None, p_conf=0.8):
     if nframes is None:
         nframes = r.choice([1, 1, 2, 3, 4, 6, 8, 12])
     pdus = []
@@ -364,7 +364,7 @@ def gen_session(r, link, nframes=None, auth=None, big_ok=True, raw=0.15, units_k
     frames = []
     tx = r.randrange(65536)
     for p in pdus:
-        frames.append((tx if link == 'tcp' else None, pick_dest(r, link, units), bytes(p)))
+        frames.append((tx if link == 'tcp' else None, pick_dest(r, link, units, p_conf), bytes(p)))
         tx = (tx + r.choice([1, 1, 1, 0, 7, 65535])) % 65536
     return (link, units, auth, tuple(frames))
 
@@ -948,11 +948,11 @@ def run_rtu_scenarios(ctx, scs):
 # (many pipelined frames per chunk, totals above 260 and 520 bytes so that the 260-byte receive buffer fills
 # with a partial frame at its end and is compacted, chunk edges at 259/260/261, cuts inside a frame) with
 # ChangeDecoding commands between chunks (the waiting next_frame is dropped and re-entered).
-def gen_stream_case(r, link, auth=None):
+def gen_stream_case(r, link, auth=None, p_conf=0.8):
     fam = r.choice(['pipeline', 'pipeline', 'edges', 'halves', 'halves', 'random'])
     if fam in ('pipeline', 'edges'):
         n = r.choice([24, 30, 45, 60])
-        base = gen_session(r, link, nframes=n, auth=auth, big_ok=False, raw=0.03)
+        base = gen_session(r, link, nframes=n, auth=auth, big_ok=False, raw=0.03, p_conf=p_conf)
         # mostly short requests so that many fit into one buffer fill; a few long ones shift the alignment
         frames = []
         for f in base[3]:
@@ -961,7 +961,7 @@ def gen_stream_case(r, link, auth=None):
             frames.append(f)
         case = (base[0], base[1], base[2], tuple(frames))
     else:
-        case = gen_session(r, link, nframes=r.choice([1, 2, 3, 5, 8]), auth=auth, big_ok=False, raw=0.05)
+        case = gen_session(r, link, nframes=r.choice([1, 2, 3, 5, 8]), auth=auth, big_ok=False, raw=0.05, p_conf=p_conf)
     stream = b''.join(adu(link, f) for f in case[3])
     cuts = []
     if fam == 'pipeline':
@@ -1094,6 +1094,13 @@ FFI_LABEL = {'rc': 'read_coils', 'rd': 'read_discrete_inputs', 'rh': 'read_holdi
              'wc': 'write_single_coil', 'wr': 'write_single_register', 'wmc': 'write_multiple_coils', 'wmr': 'write_multiple_registers'}
 
 
+# role certificate -> the role the authorization handler must be asked about (None: no usable role, no session).
+#   chained: the client presents [own certificate (viewer), issuing CA certificate (engineer)], the server trusts only the root:
+#            the role is the LEAF's;  viaint: [own certificate (operator), intermediate without role];
+#   nulrole: self-signed pair whose role string is "oper\0ator": a C callback sees the C string `oper` (C-ABI server only)
+SEEN_ROLE = {'operator': 'operator', 'viewer': 'viewer', 'chained': 'viewer', 'viaint': 'operator', 'nulrole': 'oper', 'roleless': None, 'tworoles': None}
+
+
 def authz_policy(policy, label, role):
     if policy == 'allow':
         return True
@@ -1117,10 +1124,18 @@ def gen_authz_sequences(r, quick=True):
         # a certificate without a usable role gets no session at all, whatever the policy
         seqs.append((server, 'deny', 1, (('roleless', 'wr', 1, 7), ('operator', 'wr', 1, 7))))
         seqs.append((server, 'allow', 1, (('tworoles', 'wmr', 1, 2), ('roleless', 'rh', 1, 1), ('viewer', 'rh', 1, 1))))
+        # a client that presents a chain: the role is the one of its OWN certificate, not of the CA that issued it
+        seqs.append((server, 'byrole', 1, (('chained', 'rh', 1, 2), ('chained', 'wr', 1, 7), ('chained', 'wc', 2, 1), ('chained', 'wmr', 1, 2), ('chained', 'rc', 0, 3))))
+        seqs.append((server, 'byrole', 1, (('viaint', 'wr', 1, 7), ('viewer', 'wr', 1, 7), ('viaint', 'wmc', 1, 2))))
         for _ in range(2 if quick else 12):
             pol = r.choice(['coils', 'byrole', 'byrole', 'deny', 'allow'])
             k = r.choice([2, 3, 5])
-            seqs.append((server, pol, r.choice([1, 7, 200]), tuple((r.choice(['operator', 'viewer', 'viewer', 'roleless']), r.choice(ops), r.randrange(0, 8), r.choice([1, 2])) for _ in range(k))))
+            seqs.append((server, pol, r.choice([1, 7, 200]), tuple((r.choice(['operator', 'viewer', 'viewer', 'roleless', 'viaint']), r.choice(ops), r.randrange(0, 8), r.choice([1, 2])) for _ in range(k))))
+    # a hostile role string (U+0000 inside): the request is authorized against what the C callback sees and answered,
+    # the session must not die
+    seqs.append(('ffi', 'allow', 1, (('nulrole', 'wr', 1, 7), ('nulrole', 'rh', 1, 1))))
+    seqs.append(('ffi', 'byrole', 1, (('nulrole', 'rh', 1, 1), ('nulrole', 'wmr', 1, 2))))
+    seqs.append(('ffi', 'coils', 1, (('nulrole', 'wc', 1, 1), ('nulrole', 'wr', 1, 1))))
     return seqs
 
 
@@ -1140,7 +1155,8 @@ def run_authz_sequences(ctx, seqs):
         for k, (role, op, st, n) in enumerate(sess):
             g = got[k] if k < len(got) else line
             label = FFI_LABEL[op]
-            usable = role in ('operator', 'viewer')
+            seen = SEEN_ROLE[role]
+            usable = seen is not None
             client = g.split(' ')[0][len('client='):] if g.startswith('client=') else g
             count = g.rsplit(' x', 1)[1] if ' x' in g else '?'
             auth = g.split(' auth=', 1)[1].rsplit(' x', 1)[0] if ' auth=' in g else '?'
@@ -1149,9 +1165,9 @@ def run_authz_sequences(ctx, seqs):
                 ok_effect = not client.startswith('OK')
                 ok_full = ok_effect and count == '0'
             else:
-                allowed = authz_policy(pol, label, role)
+                allowed = authz_policy(pol, label, seen)
                 arg = f'{st}' if op in ('wc', 'wr') else f'{st},{max(n, 1)}'
-                want_auth = f'{label}:{unit}:{arg}:{role}'
+                want_auth = f'{label}:{unit}:{arg}:{seen}'
                 want = {'served': True, 'allowed': allowed, 'query': want_auth}
                 ok_effect = client.startswith('OK') if allowed else client == 'EX:IllegalFunction'
                 ok_full = ok_effect and auth == want_auth and count == '1'
@@ -1170,3 +1186,44 @@ def replay_authz_sequences(ctx, effect_only):
         ctx.violation(ctx.replay.get('key', 'authorization.tls.replay'), f'session #{p["session"]} got `{p["got"]}`, required {p["want"]}',
                       {'authz_sequences': ctx.replay['authz_sequences'], 'harness_line': 'ffi_authz: ' + authz_line(sq), 'impl': o})
     ctx.coverage.update({'evaluations': len(seqs), 'distinct_nontrivial': len(seqs), 'rule': 'replay of an authorization sequence', 'samples': [], 'input_classes': {}})
+
+
+# ------------------------------------------------------------------------------------------ a handler lock held by another thread
+# `@hold<k>:<ms>`: an application thread holds the mutex of unit k's handler object for a while. The session that needs
+# it waits (std Mutex::lock); nothing may be skipped or answered with an error because of it.
+def gen_hold_case(r, broadcast):
+    link = 'rtu' if broadcast else r.choice(['tcp', 'rtu'])
+    ids = sorted(r.sample([1, 2, 3, 5, 17, 100, 247], r.choice([2, 3])))
+    units = [simple_unit(u, r.choice([1, 3, 7]), r.randrange(500)) for u in ids]
+    if r.random() < 0.25:
+        units[-1] = shared_unit(ids[-1], ids[0])
+    units = tuple(units)
+    held = r.choice(ids)
+    addr = r.randrange(0, 20)
+    k = r.random()
+    if k < 0.4:
+        w = bytes([6] + be(addr) + be(r.randrange(1, 65536)))
+        rd = bytes([3] + be(addr) + be(1))
+    elif k < 0.6:
+        w = bytes([5] + be(addr) + be(0xFF00))
+        rd = bytes([1] + be(addr) + be(1))
+    elif k < 0.8:
+        w = bytes([16] + be(addr) + be(2) + [4] + rnd_bytes(r, 4))
+        rd = bytes([3] + be(addr) + be(2))
+    else:
+        w = bytes([15] + be(addr) + be(5) + [1, r.randrange(32)])
+        rd = bytes([1] + be(addr) + be(5))
+    tx = (lambda: r.randrange(65536)) if link == 'tcp' else (lambda: None)
+    frames, script = [], []
+
+    def add(f):
+        frames.append(f)
+        script.append(adu(link, f).hex().upper())
+    script.append(f'@hold{held}:{r.choice([60, 120])}')
+    if broadcast:
+        add((tx(), 0, w))
+    else:
+        add((tx(), held, r.choice([w, rd])))
+    for u in ids:
+        add((tx(), u, rd))
+    return ((link, units, None, tuple(frames)), tuple(script))
